@@ -766,13 +766,13 @@ func (dht *IpfsDHT) getMode() mode
   ensures [internal-reads-mode-under-lock] true
 
 func (dht *IpfsDHT) moveToServerMode() error
-  props C13
+  props C13 C09
   holds dht.modeLk
   modifies dht.mode
   ensures result == nil && dht.mode == modeServer
 
 func (dht *IpfsDHT) moveToClientMode() error
-  props C13
+  props C13 C09
   holds dht.modeLk
   ghostvar $dir network.Direction = 0
   ghostvar $server bool = false
@@ -783,7 +783,7 @@ func (dht *IpfsDHT) moveToClientMode() error
   ghost at before call(Reset): assert($recv == s && $dir == network.DirInbound)
 
 func (dht *IpfsDHT) setMode(m mode) error
-  props C13
+  props C13 C09
   modifies dht.mode
   ensures [mode-set] imp(result == nil && (m == modeServer || m == modeClient), dht.mode == m)
   ensures [unknown-mode-refused] imp(m != modeServer && m != modeClient && m != old(dht.mode), result != nil)
